@@ -162,6 +162,23 @@ fn check_each(st: &mut Stats, name: &str, m: &Message, es: &[Endianness], ctx: E
         if le != (e == Endianness::LittleEndian) {
           return record(st, &format!("C14:framing:endianness-flag:{}", kinds[i]), format!("submessage {i} has endianness flag {le} although it was built for {e:?}"), &case);
         }
+        // layouts another implementation relies on: the body length the RTPS 2.5 PSM prescribes for the
+        // submessages whose size follows from their own fields
+        let blen = w[i].2;
+        let expect_len: Option<usize> = match &s.body {
+          SubmessageBody::Interpreter(InterpreterSubmessage::InfoReply(ir, f)) => Some(4 + 24 * ir.unicast_locator_list.len() + if f.contains(INFOREPLY_Flags::Multicast) { 4 + 24 * ir.multicast_locator_list.as_ref().map_or(0, |l| l.len()) } else { 0 }),
+          SubmessageBody::Interpreter(InterpreterSubmessage::InfoDestination(..)) => Some(12),
+          SubmessageBody::Interpreter(InterpreterSubmessage::InfoSource(..)) => Some(20),
+          SubmessageBody::Interpreter(InterpreterSubmessage::InfoTimestamp(_, f)) => Some(if f.contains(INFOTIMESTAMP_Flags::Invalidate) { 0 } else { 8 }),
+          SubmessageBody::Writer(WriterSubmessage::Heartbeat(..)) => Some(28),
+          SubmessageBody::Writer(WriterSubmessage::HeartbeatFrag(..)) => Some(24),
+          _ => None,
+        };
+        if let Some(x) = expect_len {
+          if x != blen {
+            return record(st, &format!("C14:framing:layout:{}", kinds[i]), format!("submessage {i}: body of {blen} bytes on the wire, the RTPS layout of its fields takes {x}"), &case);
+          }
+        }
         if *fl != s.header.flags {
           return record(st, &format!("C14:framing:flags:{}", kinds[i]), format!("submessage {i}: flags on the wire {fl:#x}, in the header struct {:#x}", s.header.flags), &case);
         }
